@@ -70,7 +70,7 @@ IMAGE_SLOTS = ("image-name", "image-in-form", "form-name")
 OTYPES = ["text", "xml", "html"]
 
 BOUNDS = {
-    "quick": "11 slots x 19 hostile strings (image slots x 7 export kinds) x output type text; + xml/html for image-name; + inline image and benign baselines",
+    "quick": "11 slots x 19 hostile strings (image slots x 7 export kinds) x output type text; + xml/html for image-name; + inline image and benign baselines; + 17 late-sentinel cases (files appearing after the ImageWriter exists); + 6 CMap slots x 5 names with CMAP_PATH unset and decoys in the working directory",
     "thorough": "quick + all output types for every image case + all unordered slot pairs x 4x4 traversal strings",
 }
 
@@ -91,6 +91,8 @@ META = {
         "decoys are planted only where the joined path normalises to a location inside the harness tree and all intermediate directories of the un-normalised path exist; nothing is planted inside the repository",
         "CMapDB's per-process caches are cleared before every case so that a name loaded earlier cannot hide a later load",
         "Pillow is not installed: export paths that need it create their file and then raise ImportError; only file effects are judged, exceptions are recorded as outcome",
+        "late-sentinel cases assemble the extract_text_to_fp pipeline from the public classes (ImageWriter, converter, PDFPageInterpreter) to drop files between writer construction and export",
+        "with CMAP_PATH unset, reads under the documented default /usr/share/pdfminer would be allowed (the directory does not exist here)",
         "inline image names are interpreter-generated (id()), not document-controlled; one inline case per export kind checks they stay inside the output dir",
     ],
 }
@@ -120,7 +122,13 @@ def _hook(event: str, args: Tuple) -> None:
         fn = ">".join(reversed(chain[:4])) if chain else "?"
     except Exception:  # noqa
         pass
-    _EVENTS.append((event, tuple(a if isinstance(a, (str, bytes, int, type(None))) else repr(a) for a in args), fn))
+    rec = [a if isinstance(a, (str, bytes, int, type(None))) else repr(a) for a in args]
+    if rec and isinstance(rec[0], (str, bytes)) and event not in ("subprocess.Popen", "os.system"):
+        try:
+            rec[0] = os.path.abspath(os.fsdecode(rec[0]))  # relative names are resolved against the cwd of the moment
+        except Exception:  # noqa
+            pass
+    _EVENTS.append((event, tuple(rec), fn))
 
 
 def _install() -> None:
@@ -280,6 +288,7 @@ class Tree:
         self.cmap = os.path.join(self.root, "a", "b", "cmap")
         self.out = os.path.join(self.root, "a", "b", "out")
         self.abs = os.path.join(self.root, "abs")
+        self.cwd = os.path.join(self.root, "a", "b", "cwd")
         import pdfminer
 
         self.lib = os.path.join(os.path.dirname(os.path.realpath(pdfminer.__file__)), "cmap")
@@ -288,7 +297,7 @@ class Tree:
         for n in os.listdir(self.root):
             p = os.path.join(self.root, n)
             shutil.rmtree(p) if os.path.isdir(p) and not os.path.islink(p) else os.remove(p)
-        for dd in (self.cmap, self.out, self.abs):
+        for dd in (self.cmap, self.out, self.abs, self.cwd):
             os.makedirs(dd)
         with open(os.path.join(self.cmap, "exists.pickle.gz"), "wb") as f:
             f.write(_gz_pickle(DECOY_CMAP))
@@ -300,12 +309,12 @@ class Tree:
         rb = os.path.realpath(base)
         return rp == rb or rp.startswith(rb + os.sep)
 
-    def plant_cmap_decoys(self, names: List[str]) -> int:
+    def plant_cmap_decoys(self, names: List[str], bases: Optional[Tuple[str, ...]] = None) -> int:
         """For every file name the implementation may join to a resource directory, plant a decoy where it lands."""
         n = 0
         for nm in names:
             nm = nm.replace("\0", "")
-            for base in (self.cmap, self.lib):
+            for base in (bases or (self.cmap, self.lib)):
                 for fname, payload in ((nm + ".pickle.gz", DECOY_CMAP), ("to-unicode-" + nm + ".pickle.gz", DECOY_UMAP)):
                     raw = os.path.join(base, fname)
                     tgt = os.path.normpath(raw)
@@ -405,6 +414,34 @@ def _extract(pdf: bytes, out: Optional[str], otype: str) -> Optional[str]:
         return type(e).__name__
 
 
+def _extract_late(pdf: bytes, out: str, otype: str, plant) -> Optional[str]:
+    """Same pipeline as extract_text_to_fp, assembled from the public classes, so that ``plant()`` can drop files into
+    the output directory after the ImageWriter and the converter exist and before the first page is processed."""
+    from pdfminer.converter import HTMLConverter, TextConverter, XMLConverter
+    from pdfminer.image import ImageWriter
+    from pdfminer.layout import LAParams
+    from pdfminer.pdfinterp import PDFPageInterpreter, PDFResourceManager
+    from pdfminer.pdfpage import PDFPage
+
+    sink = io.BytesIO()
+    try:
+        iw = ImageWriter(out)
+        rsrc = PDFResourceManager()
+        conv = {"text": TextConverter, "xml": XMLConverter, "html": HTMLConverter}[otype]
+        device = conv(rsrc, sink, codec="utf-8", laparams=LAParams(), imagewriter=iw)
+        plant()
+        interp = PDFPageInterpreter(rsrc, device)
+        for page in PDFPage.get_pages(io.BytesIO(pdf)):
+            interp.process_page(page)
+        device.close()
+        return None
+    except BaseException as e:  # noqa
+        return type(e).__name__
+
+
+DEFAULT_CMAP_DIR = "/usr/share/pdfminer"  # documented default of $CMAP_PATH
+
+
 def _prewarm(t: Tree) -> None:
     if _WARM[0]:
         return
@@ -438,19 +475,43 @@ def run_case(case: Dict[str, Any]):
             cmap_names.append(h.strip() + "-Japan1")
         if s == "ordering":
             cmap_names.append("Adobe-" + h.strip())
+    cwd_mode = bool(case.get("cwd_mode"))
+    late = bool(case.get("late_sentinels"))
     planted = t.plant_cmap_decoys(cmap_names)
+    if cwd_mode:
+        # default configuration: CMAP_PATH unset, and files named like the document's CMaps lie in the working directory
+        planted += t.plant_cmap_decoys(cmap_names, bases=(t.cwd,))
     img_names = [h for s, h in slots if s in ("image-name", "image-in-form")] + (["Im0"] if any(s == "form-name" for s, _ in slots) else [])
-    t.plant_sentinels(img_names, EXT[kind])
+    if not late:
+        t.plant_sentinels(img_names, EXT[kind])
     if case.get("fresh_out"):
         shutil.rmtree(t.out)  # output directory does not exist yet: ImageWriter may create it (and only it)
-    before = t.snapshot()
+    snap = [t.snapshot()]
     _clear_caches()
     del _EVENTS[:]
+    old_cwd = os.getcwd()
+    if cwd_mode:
+        os.environ.pop("CMAP_PATH", None)
+        os.chdir(t.cwd)
+
+    def plant_late():
+        _ARMED[0] = False
+        t.plant_sentinels(img_names, EXT[kind])
+        snap[0] = t.snapshot()
+        _ARMED[0] = True
+
     _ARMED[0] = True
     try:
-        exc = _extract(pdf, None if case.get("no_export") else t.out, otype)
+        if late:
+            exc = _extract_late(pdf, t.out, otype, plant_late)
+        else:
+            exc = _extract(pdf, None if case.get("no_export") else t.out, otype)
     finally:
         _ARMED[0] = False
+        if cwd_mode:
+            os.chdir(old_cwd)
+            os.environ["CMAP_PATH"] = t.cmap
+    before = snap[0]
     events = list(_EVENTS)
     after = t.snapshot()
     viol: List[Tuple[str, Any, Any, str]] = []
@@ -480,7 +541,9 @@ def run_case(case: Dict[str, Any]):
                 continue
             if t.inside(ap, t.lib):
                 cls = "libcmap"
-            elif t.inside(ap, t.cmap):
+            elif cwd_mode and t.inside(ap, DEFAULT_CMAP_DIR):
+                cls = "cmappath"  # the documented default resource directory
+            elif t.inside(ap, t.cmap) and not cwd_mode:
                 cls = "cmappath"
             elif t.inside(ap, t.out):
                 cls = "outdir"
@@ -547,6 +610,16 @@ def _cases(tier: str) -> List[Dict[str, Any]]:
     for ot in OTYPES:
         cs.append({"slots": [("image-name", "Im0")], "kind": "bmp1", "otype": ot, "fresh_out": True})
         cs.append({"slots": [("image-name", "up1"), ("image-in-form", "abs")], "kind": "jpg", "otype": ot, "no_export": True})
+    # files that come into existence after the ImageWriter was set up must not be overwritten either
+    for kind in IMAGE_KINDS:
+        for nm in ("Im0", "existing"):
+            for ot in (OTYPES if kind == "bmp1" else ["text"]):
+                cs.append({"slots": [("image-name", nm)], "kind": kind, "otype": ot, "late_sentinels": True})
+    cs.append({"slots": [("image-in-form", "Im0"), ("image-name", "Im0")], "kind": "jpg", "otype": "text", "late_sentinels": True})
+    # default configuration (CMAP_PATH unset): the working directory is not a resource directory
+    for slot in ("type0-encoding", "cmap-stream-name", "usecmap-tounicode-type0", "usecmap-tounicode-simple", "registry", "ordering"):
+        for nm in ("evil", "sub/evil", "up1", "abs", "90ms-RKSJ-H"):
+            cs.append({"slots": [(slot, nm)], "kind": "bmp1", "otype": "text", "cwd_mode": True})
     for slot in SLOTS:
         kinds = IMAGE_KINDS if slot in IMAGE_SLOTS else ["bmp1"]
         for hk, _ in HOSTILE:
@@ -610,7 +683,8 @@ def _run_cases(cs, shard, st):
 
 def replay(case):
     c = {"slots": [tuple(x) for x in case["slots"]], "kind": case["kind"], "otype": case["otype"], "inline": case.get("inline", False),
-         "fresh_out": case.get("fresh_out", False), "no_export": case.get("no_export", False)}
+         "fresh_out": case.get("fresh_out", False), "no_export": case.get("no_export", False),
+         "late_sentinels": case.get("late_sentinels", False), "cwd_mode": case.get("cwd_mode", False)}
     try:
         viol, _, _ = run_case(c)
     finally:
